@@ -54,6 +54,20 @@ pub enum Prog {
     Cost { spec: CostSpec, queries: Vec<CostQuery> },
     Supply { spec: SupplySpec, deltas: Vec<u64>, demands: Vec<u64> },
     Rbf { arr: ArrSpec, cost: CostSpec, deltas: Vec<u64>, limits: Vec<usize> },
+    /// eager operations on a plain arrival curve, each followed by queries
+    CurveOps { dmin: Vec<u64>, ops: Vec<CurveOp>, queries: Vec<u64> },
+    /// eager extrapolation of a trace-derived WCET curve, then queries
+    CostOps { costs: Vec<u64>, max_n: usize, extrapolate: Vec<usize>, queries: Vec<usize> },
+    /// a fixed-point search over a generated step workload (as C08)
+    Search { case: crate::props::c08::SearchCase, limit: u64 },
+}
+
+#[derive(Clone, Debug, Serialize, Deserialize)]
+pub enum CurveOp {
+    Extrapolate(u64),
+    ExtrapolateSteps(usize),
+    WithBound(u64, usize),
+    MinDistance(usize),
 }
 
 fn fmt_res<T: std::fmt::Debug>(r: Result<T, String>) -> String {
@@ -141,6 +155,40 @@ pub fn execute(p: &Prog) -> Vec<String> {
             out.push(fmt_res(guard_with_budget(budget, || rbf.steps_iter().take(12).map(du).collect::<Vec<_>>())));
             out
         }
+        Prog::CurveOps { dmin, ops, queries } => {
+            let mut cur = match guard_with_budget(budget, || arrival::Curve::new(dmin.iter().map(|x| d(*x)).collect())) {
+                Ok(c) => c,
+                Err(e) => return vec![format!("PANIC(build): {}", e)],
+            };
+            let mut out = vec![];
+            for op in ops {
+                out.push(match op {
+                    CurveOp::Extrapolate(h) => fmt_res(guard_with_budget(budget, || cur.extrapolate(d(*h)))),
+                    CurveOp::ExtrapolateSteps(n) => fmt_res(guard_with_budget(budget, || cur.extrapolate_steps(*n))),
+                    CurveOp::WithBound(x, n) => fmt_res(guard_with_budget(budget, || cur.extrapolate_with_bound((d(*x), *n)))),
+                    CurveOp::MinDistance(n) => fmt_res(guard_with_budget(budget, || du(cur.min_distance(*n)))),
+                });
+                out.push(fmt_res(guard_with_budget(budget, || queries.iter().map(|x| cur.number_arrivals(d(*x))).collect::<Vec<_>>())));
+            }
+            out.push(fmt_res(guard_with_budget(budget, || cur.steps_iter().take(20).map(du).collect::<Vec<_>>())));
+            out
+        }
+        Prog::CostOps { costs, max_n, extrapolate, queries } => {
+            let mut cur = match guard_with_budget(budget, || response_time_analysis::wcet::Curve::from_trace(costs.iter().map(|x| s(*x)), *max_n)) {
+                Ok(c) => c,
+                Err(e) => return vec![format!("PANIC(build): {}", e)],
+            };
+            let mut out = vec![];
+            for n in extrapolate {
+                out.push(fmt_res(guard_with_budget(budget, || cur.extrapolate(*n))));
+                out.push(fmt_res(guard_with_budget(budget, || queries.iter().map(|q| (su(cur.cost_of_jobs(*q)), su(cur.least_wcet(*q)))).collect::<Vec<_>>())));
+            }
+            out.push(fmt_res(guard_with_budget(budget, || cur.job_cost_iter().take(30).map(su).collect::<Vec<_>>())));
+            out
+        }
+        Prog::Search { case, limit } => {
+            vec![fmt_res(guard_with_budget(budget, || crate::props::c08::run_search_case(case, *limit)))]
+        }
     }
 }
 
@@ -159,13 +207,15 @@ thread_local! {
 }
 
 fn spawn_child() -> Result<ChildProc, String> {
-    let mut child = Command::new(CHILD_BIN)
+    // (development aid: RTAVERIF_CHILD_BIN points at another build of the unchecked binary)
+    let bin = std::env::var("RTAVERIF_CHILD_BIN").unwrap_or_else(|_| CHILD_BIN.to_string());
+    let mut child = Command::new(&bin)
         .arg("child")
         .stdin(Stdio::piped())
         .stdout(Stdio::piped())
         .stderr(Stdio::null())
         .spawn()
-        .map_err(|e| format!("cannot start {}: {}", CHILD_BIN, e))?;
+        .map_err(|e| format!("cannot start {}: {}", bin, e))?;
     let stdin = child.stdin.take().unwrap();
     let stdout = BufReader::new(child.stdout.take().unwrap());
     Ok(ChildProc { child, stdin, stdout })
@@ -356,6 +406,28 @@ fn prog_strategy(tier: Tier) -> BoxedStrategy<Prog> {
             proptest::collection::vec(prop_oneof![0u64..200, 0u64..1_000_000], 1..6)
         )
             .prop_map(|(spec, deltas, demands)| Prog::Supply { spec, deltas, demands }),
+        1 => (
+            dmin_strategy(6, 40, true),
+            proptest::collection::vec(
+                prop_oneof![
+                    3 => (0u64..600).prop_map(CurveOp::Extrapolate),
+                    2 => (0usize..40).prop_map(CurveOp::ExtrapolateSteps),
+                    2 => (1u64..300, 0usize..12).prop_map(|(x, n)| CurveOp::WithBound(x, n)),
+                    1 => prop_oneof![0usize..40, Just(usize::MAX)].prop_map(CurveOp::MinDistance),
+                ],
+                1..5
+            ),
+            proptest::collection::vec(prop_oneof![0u64..400, 0u64..100_000], 1..5)
+        )
+            .prop_map(|(dmin, ops, queries)| Prog::CurveOps { dmin, ops, queries }),
+        1 => (
+            proptest::collection::vec(prop_oneof![1 => Just(0u64), 6 => 1u64..30], 1..14),
+            1usize..8,
+            proptest::collection::vec(prop_oneof![4 => 0usize..60, 1 => 0usize..2000], 1..4),
+            proptest::collection::vec(prop_oneof![4 => 0usize..60, 1 => 0usize..5000], 1..5)
+        )
+            .prop_map(|(costs, max_n, extrapolate, queries)| Prog::CostOps { costs, max_n, extrapolate, queries }),
+        1 => (crate::props::c08::search_case_strategy(), 1u64..400).prop_map(|(case, limit)| Prog::Search { case, limit }),
         2 => (
             arr_strategy(full_gen(tier.pick(40, 80))),
             cost_strategy(12, false),
@@ -519,6 +591,7 @@ fn check(p: &Prog) -> CheckResult {
         Prog::Arr { spec, .. } | Prog::Rbf { arr: spec, .. } => spec.any(&|x| matches!(x, ArrSpec::Curve { extrapolating: true, .. } | ArrSpec::FromTrace { extrapolating: true, .. } | ArrSpec::CurveFromIter { extrapolating: true, .. } | ArrSpec::CurveOfJobs { .. } | ArrSpec::CurveOfUntil { .. } | ArrSpec::CurveFromAcp { .. })),
         Prog::Cost { spec, .. } => matches!(spec, CostSpec::Curve { extrapolating: true, .. } | CostSpec::FromTrace { extrapolating: true, .. }),
         Prog::Supply { .. } => false,
+        Prog::CurveOps { .. } | Prog::CostOps { .. } | Prog::Search { .. } => true,
     };
     out.label(match p {
         Prog::Uni { .. } => "uniprocessor-analysis",
@@ -528,6 +601,9 @@ fn check(p: &Prog) -> CheckResult {
         Prog::Cost { .. } => "cost-queries",
         Prog::Supply { .. } => "supply-queries",
         Prog::Rbf { .. } => "rbf-queries",
+        Prog::CurveOps { .. } => "eager-curve-operations",
+        Prog::CostOps { .. } => "eager-cost-curve-operations",
+        Prog::Search { .. } => "fixed-point-search",
     });
     if let Prog::Uni { limit, tasks, .. } = p {
         out.label_if(*limit > 100_000, "limit>100000");
@@ -541,7 +617,7 @@ fn check(p: &Prog) -> CheckResult {
 pub fn def() -> PropertyDef {
     PropertyDef {
         id: "C20",
-        rule: "generated: small programs over the public surface on well-formed inputs: (1) any of the nine uniprocessor analyses on task sets with every arrival-model kind (Never, jitter >> T, bursts, plateaus, derived curves, prefixes, traces; depth <= 2), explicit or prescribed blocking, limits small / 3000 / exactly 100000 / above the debug cross-check threshold, all time values optionally scaled by 10^3 or 10^6; (2) the six ROS 2 analyses (as C07, plus strata where the analysed callback / all polled callbacks / all callbacks never arrive) with small, medium and > 100000 limits; (3) arrival-model query programs (number_arrivals up to 2*10^9, steps, delta_min_iter, jittered clones) over every spec kind incl. traces; (4) cost-model queries; (5) supply queries with parameters up to 10^9; (6) RBF queries. Oracle: every step runs under catch_unwind with a step budget of 2*10^7 (work-weighted) loop iterations in this checked build (debug assertions + overflow checks, so the library's own brute-force cross-checks run) and, via a persistent child process, in the unchecked build; no outcome may be a panic / budget exhaustion and the two outcome lists must be identical (a dead child counts as a difference). Known findings are matched by exact signatures. Non-trivial: the program ran an analysis (>= 1 fixed-point search) or an extrapolation / curve derivation. Distinct by case JSON.".into(),
+        rule: "generated: small programs over the public surface on well-formed inputs: (1) any of the nine uniprocessor analyses on task sets with every arrival-model kind (Never, jitter >> T, bursts, plateaus, derived curves, prefixes, traces; depth <= 2), explicit or prescribed blocking, limits small / 3000 / exactly 100000 / above the debug cross-check threshold, all time values optionally scaled by 10^3 or 10^6; (2) the six ROS 2 analyses (as C07, plus strata where the analysed callback / all polled callbacks / all callbacks never arrive) with small, medium and > 100000 limits; (3) arrival-model query programs (number_arrivals up to 2*10^9, steps, delta_min_iter, jittered clones) over every spec kind incl. traces; (4) cost-model queries; (5) supply queries with parameters up to 10^9; (6) RBF queries; (7) eager operations on plain arrival curves (extrapolate, extrapolate_steps, extrapolate_with_bound with arbitrary job counts, min_distance) interleaved with queries; (8) eager extrapolation of trace-derived WCET curves (targets 0..2000) with queries up to 5000 jobs; (9) fixed-point searches over generated step workloads incl. user-defined supplies. Oracle: every step runs under catch_unwind with a step budget of 2*10^7 (work-weighted) loop iterations in this checked build (debug assertions + overflow checks, so the library's own brute-force cross-checks run) and, via a persistent child process, in the unchecked build; no outcome may be a panic / budget exhaustion and the two outcome lists must be identical (a dead child counts as a difference). Known findings are matched by exact signatures. Non-trivial: the program ran an analysis (>= 1 fixed-point search) or an extrapolation / curve derivation. Distinct by case JSON.".into(),
         assumptions: vec![
             "well-formed inputs: periods, budgets, WCETs >= 1, segments within the WCET, budget <= deadline <= period, delta-min prefixes ending with a positive distance, limits >= 1, subchains drawn from the workload, time values <= ~4*10^9".into(),
             "both builds are the same harness at opt-level 3; they differ in debug-assertions and overflow-checks only".into(),
